@@ -13,9 +13,13 @@
 #define DA_INCR 256
 #endif
 /* largest index a caller passes: refs are uint16 (the true domain of the sole client) */
+#ifndef DA_MAXELEM
 #define DA_MAXELEM 65535
+#endif
 /* largest table that can therefore exist: 65535/incr+1 increments, or the start size */
+#ifndef DA_MAXN
 #define DA_MAXN (65536 + DA_INCR)
+#endif
 
 typedef void *voidp;
 
@@ -154,6 +158,9 @@ h_da_set(void)
     H4V_ASSUME(elem <= DA_MAXELEM);
     dynarr_p a = mk_da(elem);
     int      n0 = a->num_elems;
+#ifdef DA_NOGROW /* the in-place path and the failures only */
+    H4V_ASSUME(elem < n0);
+#endif
     if (null_case)
         a = NULL;
     int r = DAset_elem(a, elem, obj);
